@@ -1268,7 +1268,13 @@ func (p *parser) parseBlock(block text.BlockReader, parent ast.Node, pc Context)
 				// text when parsers triggered by a space exist.
 				if last, ok := parent.LastChild().(*ast.Text); ok && last.Segment.Stop == diff.Start &&
 					!last.IsRaw() && !last.SoftLineBreak() && !last.HardLineBreak() {
+					// the line break belongs to that text: an empty text node carrying it would hide the
+					// characters before the break from the renderer (east asian line breaks)
 					last.Segment = last.Segment.TrimRightSpace(source)
+					last.SetSoftLineBreak(lineBreakFlags&lineBreakSoft != 0)
+					last.SetHardLineBreak(lineBreakFlags&lineBreakHard != 0)
+					block.AdvanceLine()
+					continue
 				}
 			}
 		}
